@@ -1065,7 +1065,7 @@ fn main() {
     }
 
     // 7. random rounds
-    let rounds = ctx.scale(8, 40_000, 400_000);
+    let rounds = ctx.scale(24, 40_000, 400_000);
     for round in 0..rounds {
         for i in 0..4 {
             // rotate so that every shard sees every order
